@@ -31,7 +31,7 @@ type protoVariant struct {
 }
 
 func checkC05(c *hx.Ctx) {
-	c.Rule("grid: operation type {update, recover, deactivate} x anchorFrom {0,F} x anchorUntil {0,U} x anchoring time {F-1,F,F+1,U-1,U,U+1,F+D-1,F+D,F+D+1, 1, 2^40} x MaxOperationTimeDelta D {1,300,7200} x one unrelated protocol parameter moved far below/above D at a time (delta size, operation size, operation count, nonce size, hash length, file sizes, decompression factor, CAS URI length); oracle: effect in window / commitment consumed out of window / deactivate ignored, computed from (from, until, D, t) only; intake: arguments received by the installed TimeValidator = (from, effective until); exhaustive over the grid; non-trivial = every grid point with a declared window; distinct = grid points")
+	c.Rule("grid: operation type {update, recover, deactivate} x anchorFrom {0,F} x anchorUntil {0,U} x anchoring time {F-1,F,F+1,U-1,U,U+1,F+D-1,F+D,F+D+1, 1, 2^40} x MaxOperationTimeDelta D {1,300,7200} x one unrelated protocol parameter moved far below/above D at a time (delta size, operation size, operation count, nonce size, hash length, file sizes, decompression factor, CAS URI length); oracle: effect in window / commitment consumed out of window / deactivate ignored, computed from (from, until, D, t) only; intake: arguments received by the installed TimeValidator = (from, effective until); exhaustive over the grid; a second grid has two protocol versions with different time deltas (genesis 0 and 5100): the default window of an operation is computed with the delta of the version stamped on the anchored operation, whatever version is in force at its anchoring time; non-trivial = every grid point with a declared window; distinct = grid points")
 	c.Set("exhaustive", true)
 	F, U := int64(5000), int64(5100)
 	deltas := []uint64{1, 300, 7200}
@@ -157,6 +157,20 @@ func checkC05(c *hx.Ctx) {
 			} else {
 				c.Count("out_of_window:" + j.kind)
 			}
+			if !in && j.from != 0 {
+				// the interim copy of the same operation is still in the unpublished store, stamped with its intake time
+				// (inside the window): the anchored copy decides, the interim copy must not resurrect the effect
+				H2 := append(append([]*ref.Op{}, H...), Place(&op, uint64(j.from), 0, "", p.GenesisTime))
+				st2, merr2 := ref.Resolve(H2, ref.ResolveOpts{})
+				rm2, err2 := SUTResolve(pc, j.u.Suffix, H2, nil)
+				c.Eval()
+				if w2, g2 := stKey(st2, merr2), rmKey(rm2, err2); w2 != g2 {
+					c.Violation(fmt.Sprintf("C05 an interim (unpublished) copy stamped inside the window gave effect to an operation anchored outside its window at %d: %s\n   model:   %s\n   library: %s", t, gridPt, w2, g2),
+						map[string]interface{}{"grid": gridPt, "anchoring_time": t, "history": replayOps(H2), "model": w2, "library": g2})
+					return
+				}
+				c.Count("out_of_window_with_interim_copy")
+			}
 			if j.from != 0 || j.until != 0 {
 				c.Distinct(fmt.Sprintf("%s t=%d", gridPt, t))
 			}
@@ -170,8 +184,84 @@ func checkC05(c *hx.Ctx) {
 			c.Sample(4, map[string]interface{}{"grid_point": gridPt, "times": times, "validator_args": tv.calls})
 		}
 	})
+	c05TwoVersions(c)
+	c.Floor("two_version_points_where_versions_disagree", 20)
+	c.Floor("out_of_window_with_interim_copy", 100)
 	for _, k := range []string{"update", "recover", "deactivate"} {
 		c.Floor("in_window:"+k, 100)
 		c.Floor("out_of_window:"+k, 100)
 	}
+}
+
+// c05TwoVersions: the default window (anchorFrom + MaxOperationTimeDelta) is the one of the protocol version the operation was
+// anchored under (the version stamped on the anchored operation), also when the anchoring time itself lies in the
+// validity period of another version with another time delta.
+func c05TwoVersions(c *hx.Ctx) {
+	F, G := int64(5000), uint64(5100)
+	rng := c.Rng("two-versions")
+	type job struct {
+		u      *Universe
+		kind   string
+		da, db uint64
+	}
+	var jobs []job
+	for _, ks := range [][]string{{"P-256"}, {"Ed25519"}} {
+		u := NewUniverse(rng.Split(ks[0]), ref.SHA256, hx.BaseProtocol(), ks)
+		for _, kind := range []string{"update", "recover", "deactivate"} {
+			for _, d := range [][2]uint64{{50, 300}, {300, 50}, {150, 7200}, {7200, 150}, {1, 120}, {120, 1}} {
+				jobs = append(jobs, job{u, kind, d[0], d[1]})
+			}
+		}
+	}
+	hx.Parallel(len(jobs), 16, func(i int) {
+		j := jobs[i]
+		p0 := hx.BaseProtocol()
+		p0.MaxOperationTimeDelta = j.da
+		p1 := p0
+		p1.GenesisTime, p1.MaxOperationTimeDelta = G, j.db
+		pc := hx.NewClient(hx.NewVersion(p0, hx.VersionOpts{ParserOpts: hx.StrictResolution()}), hx.NewVersion(p1, hx.VersionOpts{ParserOpts: hx.StrictResolution()}))
+		u := j.u
+		cm := func(k *ref.Key) string { return k.Commitment(u.Code) }
+		k2 := []interface{}{patchAddServices(svcEntry("w", "win", "https://window.example"))}
+		o := SignedOpts{From: F}
+		var op *ref.Op
+		switch j.kind {
+		case "update":
+			op = u.MkSigned("upd[from]", "update", u.U[0], "", cm(u.U[1]), k2, o)
+		case "recover":
+			op = u.MkSigned("rec[from]", "recover", u.R[0], cm(u.R[1]), cm(u.U[1]), k2, o)
+		default:
+			op = u.MkSigned("deact[from]", "deactivate", u.R[0], "", "", nil, o)
+		}
+		create := u.MkCreate("C", ref.DeltaOK)
+		da, db := int64(j.da), int64(j.db)
+		for _, t := range []int64{F, F + da - 1, F + da, F + da + 1, F + db - 1, F + db, F + db + 1, int64(G) - 1, int64(G), int64(G) + 1} {
+			for _, stamped := range []uint64{0, G} {
+				if stamped == G && uint64(t) < G {
+					continue // a transaction cannot be written under a version that is not yet in force
+				}
+				c.Eval()
+				cr := *Place(create, 1, 0, "ref0", 0)
+				cr.MaxDelta = da
+				placed := *Place(op, uint64(t), 1, "ref1", stamped)
+				placed.MaxDelta = da
+				if stamped == G {
+					placed.MaxDelta = db
+				}
+				H := []*ref.Op{&cr, &placed}
+				st, merr := ref.Resolve(H, ref.ResolveOpts{})
+				rm, err := SUTResolve(pc, u.Suffix, H, nil)
+				pt := fmt.Sprintf("%s from=%d D(v0)=%d D(v%d)=%d anchored at %d under version %d", j.kind, F, da, G, db, t, stamped)
+				if want, got := stKey(st, merr), rmKey(rm, err); want != got {
+					c.Violation("C05 wrong effect with two protocol versions: "+pt+"\n   model:   "+want+"\n   library: "+got,
+						map[string]interface{}{"point": pt, "history": replayOps(H), "model": want, "library": got})
+					return
+				}
+				if ref.InWindow(F, 0, da, uint64(t)) != ref.InWindow(F, 0, db, uint64(t)) && stamped == 0 && uint64(t) >= G {
+					c.Count("two_version_points_where_versions_disagree")
+				}
+				c.Distinct("2v " + pt)
+			}
+		}
+	})
 }
